@@ -237,36 +237,100 @@ func runC12(c *core.Ctx) {
 	c.Check("C12-R4", pkg+".newTree/prefix-conflict", "a range set in which one code is a prefix of another is rejected", func(o *core.Ob) {
 		fn := c.Prog.Func(pkg, "newTree")
 		info := fn.Info()
-		var sw *ast.SwitchStmt
-		ast.Inspect(fn.Decl.Body, func(n ast.Node) bool {
-			if s, ok := n.(*ast.SwitchStmt); ok && s.Tag != nil && core.ExprStr(s.Tag) == "numLeaves" {
-				sw = s
-			}
-			return true
-		})
-		if sw == nil {
-			core.Undecided("switch on numLeaves not found")
-		}
-		o.At(fn.Site(sw, "leaf/subtree decision"))
-		okDefault := false
-		cases := map[string]bool{}
-		for _, cl := range sw.Body.List {
-			cc := cl.(*ast.CaseClause)
-			if cc.List == nil {
-				for _, s := range cc.Body {
-					if rs, ok := s.(*ast.ReturnStmt); ok && len(rs.Results) == 3 && !core.IsNil(info, rs.Results[2]) {
-						okDefault = true
-					}
-				}
+		g := fn.Graph()
+		// the leaf counter: a variable incremented in a loop under the test
+		// "the range ends with this byte" (len(r.Low) == depth+1)
+		var counter types.Object
+		for _, v := range g.Vs {
+			inc, ok := v.AST.(*ast.IncDecStmt)
+			if !ok || inc.Tok != token.INC || !g.InLoop(v) {
 				continue
 			}
-			cases[strings.ReplaceAll(core.ExprStr(cc.List[0]), " ", "")] = true
+			guarded := g.GuardedBy(v, func(a core.Atom) bool {
+				cmp, ok := a.AsCmp()
+				if !ok || cmp.Op != token.EQL {
+					return false
+				}
+				l, r := strings.ReplaceAll(core.ExprStr(cmp.L), " ", ""), strings.ReplaceAll(core.ExprStr(cmp.R), " ", "")
+				return (strings.HasPrefix(l, "len(") && strings.HasSuffix(l, ".Low)") && r == "depth+1") || (strings.HasPrefix(r, "len(") && strings.HasSuffix(r, ".Low)") && l == "depth+1")
+			})
+			if guarded {
+				counter = core.ObjOf(info, inc.X)
+				o.At(fn.Site(inc, "counts the children that are leaves"))
+			}
+		}
+		if counter == nil {
+			core.Undecided("leaf counter not found (a variable incremented under len(r.Low) == depth+1)")
+		}
+		// the facts about the counter that hold at a vertex: "0", "all", "!0", "!all"
+		factsAt := func(v *core.V) map[string]bool {
+			out := map[string]bool{}
+			for _, a := range g.DominatingAtoms(v) {
+				cmp, ok := a.AsCmp()
+				if !ok || (cmp.Op != token.EQL && cmp.Op != token.NEQ) {
+					continue
+				}
+				other := cmp.R
+				if core.ObjOf(info, cmp.L) != counter {
+					if core.ObjOf(info, cmp.R) != counter {
+						continue
+					}
+					other = cmp.L
+				}
+				what := ""
+				if k, isK := core.IntConst(info, other); isK && k == 0 {
+					what = "0"
+				} else if strings.HasPrefix(strings.ReplaceAll(core.ExprStr(other), " ", ""), "len(") {
+					what = "all"
+				} else {
+					continue
+				}
+				if cmp.Op == token.NEQ {
+					what = "!" + what
+				}
+				out[what] = true
+			}
+			return out
+		}
+		// mixed children are an error: some error return is reached exactly when the counter is neither 0 nor all
+		okDefault := false
+		for _, r := range g.Returns() {
+			rs := r.AST.(*ast.ReturnStmt)
+			if len(rs.Results) != 3 || core.IsNil(info, rs.Results[2]) {
+				continue
+			}
+			f := factsAt(r)
+			if f["!0"] && f["!all"] {
+				okDefault = true
+				o.At(fn.Site(rs, "mixed children rejected"))
+			}
 		}
 		o.Require(okDefault, "mixed leaf/non-leaf children do not lead to an error")
-		o.Require(cases["len(childRanges)"] && cases["0"], "expected the cases 'all children are leaves' and 'no child is a leaf'")
-		// numLeaves counts ranges of length depth+1
+		// a leaf only when all children are leaves, a subtree only when none is
+		okLeaf, okSub := false, false
+		for _, v := range g.Vs {
+			if v.AST == nil {
+				continue
+			}
+			if len(core.CallsTo(info, v.AST, false, pkg+".newTree")) > 0 {
+				f := factsAt(v)
+				if f["0"] {
+					okSub = true
+				} else {
+					o.FailAt(fn.Site(v.AST, ""), "the subtree is built although some child may be a leaf")
+				}
+			}
+			if as, ok := v.AST.(*ast.AssignStmt); ok && len(as.Rhs) == 1 && strings.Contains(c.Prog.Src(as.Rhs[0]), "descValidBegin,descValidEnd") {
+				f := factsAt(v)
+				if f["all"] {
+					okLeaf = true
+				} else {
+					o.FailAt(fn.Site(v.AST, ""), "a leaf is created although some child may have more bytes")
+				}
+			}
+		}
+		o.Require(okLeaf && okSub, "expected the cases 'all children are leaves' and 'no child is a leaf'")
 		src := c.Prog.Src(fn.Decl.Body)
-		o.Shape(strings.Contains(src, "iflen(r.Low)==depth+1{numLeaves++}"), "leaves are not identified as ranges of length depth+1")
 		// errors of the recursive call propagate
 		o.Shape(strings.Contains(src, "cc,dd,err:=newTree(childRanges,depth+1)iferr!=nil{returnnil,nil,err}"), "an error from the recursive construction is not propagated")
 	})
